@@ -105,8 +105,12 @@ structure State where
 inductive Event where
   /-- `AddEventAndWait`: the wait observer is added (before `AddEvent`) -/
   | register
+  /-- `AddEvent` of a triggering event with the root monitor: the finish-handler observer is added
+      (before `Activate` and `pool.AddTask`) -/
+  | regHandler
   /-- `AddEvent(event, m)`: `trig` = `IsTriggering`; `rules` = the rules `ProcessEvent` will
-      execute for it, in order (distinct names) -/
+      execute for it, in order (distinct names). `trig = false`: `Skip` ⇒ `Finish`. `trig = true`:
+      `Activate` + `pool.AddTask` (queue push); for the root monitor this comes after `regHandler`. -/
   | addEvent (m : Nat) (trig : Bool) (rules : List Nat)
   /-- `p.NewChildMonitor` — by the action executing under `p` -/
   | newChild (p : Nat)
@@ -159,19 +163,27 @@ def step (s : State) : Event → Option State
       | .fresh => some { s with waiting := true, obsWait := s.obsWait + 1 }
       | _ => none
     | none => none
+  | .regHandler =>
+    if s.handlerReg then none else
+    match s.mons[0]? with
+    | some r =>
+      match r.phase with
+      | .fresh => some { s with handlerReg := true, obsHandler := s.obsHandler + 1 }
+      | _ => none
+    | none => none
   | .addEvent i trig rules =>
     match s.mons[i]? with
     | some m =>
       match m.phase with
       | .fresh =>
         if trig then
-          if rules.Nodup then
+          -- the root's finish-handler observer is registered before the task is handed to the pool
+          if rules.Nodup ∧ (i = 0 → s.handlerReg = true) then
             let s1 := s.setMon i { m with phase := .queued, todo := rules }
-            some { s1 with obsHandler := if i = 0 then s1.obsHandler + 1 else s1.obsHandler,
-                           handlerReg := s1.handlerReg || (i == 0),
-                           obsQueue := if s1.hasQueue then s1.obsQueue else s1.obsQueue + 1,
+            some { s1 with obsQueue := if s1.hasQueue then s1.obsQueue else s1.obsQueue + 1,
                            hasQueue := true }
           else none
+        else if i = 0 ∧ s.handlerReg = true then none   -- the non-triggering path registers nothing
         else some (finishOne (s.setMon i { m with phase := .done, skipped := true }))
       | _ => none
     | none => none
@@ -254,6 +266,26 @@ def step (s : State) : Event → Option State
   | .allErrors => some s
 
 def run (s : State) (es : List Event) : Option State := es.foldlM step s
+
+/-- the variant "finish-handler observer added AFTER `pool.AddTask`" (not the code; used as a negative
+    witness): the root may be pushed without the handler, the handler is registered later -/
+def stepLate (s : State) : Event → Option State
+  | .regHandler =>
+    if s.handlerReg then none else
+    match s.mons[0]? with
+    | some r => if r.phase = .fresh ∨ r.skipped then none
+                else some { s with handlerReg := true, obsHandler := s.obsHandler + 1 }
+    | none => none
+  | .addEvent 0 true rules =>
+    match s.mons[0]? with
+    | some m =>
+      match m.phase with
+      | .fresh =>
+        let s1 := s.setMon 0 { m with phase := .queued, todo := rules }
+        some { s1 with obsQueue := if s1.hasQueue then s1.obsQueue else s1.obsQueue + 1, hasQueue := true }
+      | _ => none
+    | none => none
+  | e => step s e
 
 /-- reachable from the initial state of a cascade by any sequence of events -/
 def Reachable (s : State) : Prop := ∃ workers failFirst es, run (init workers failFirst) es = some s
